@@ -7,6 +7,7 @@ the executable `Ristretto.ops` is validated against curve25519-dalek by the rist
 streams, its group laws are not proved). Scalars `r` (blinding) and `k + ts` (tagged key) are
 assumed non-zero where the real code silently relies on it (probability 2⁻²⁵²).
 -/
+import StarModel.Lemmas.Skeleton
 import StarModel.Lemmas.Ppoprf
 
 namespace StarModel.Props.C12
